@@ -665,40 +665,40 @@ theorem c05_frame2 : FrameOrdered c05P c05G [] [0, 1] := by
 end Engine
 end Pytask
 
-/-! data for the refutation `C05_edit_after_kill_full_false` (finding F20) -/
+/-! data for the refutation `C05_edit_after_kill_full_false` (finding F50) -/
 namespace Pytask
 namespace Engine
 
 /-- "do the two inputs agree?" (0 = agree, 1 = differ) -/
-def f20F : BodyFn := fun _ _ _ ds => ((ds.map (·.getD 0)).sum) % 2
-def f20T : TaskSpec := { id := 0, src := 90, deps := [10, 11], prods := [20], after := [] }
-def f20P : Project := ⟨[f20T]⟩
-def f20G : G := modifyDag f20P (baseGraph f20P)
+def f50F : BodyFn := fun _ _ _ ds => ((ds.map (·.getD 0)).sum) % 2
+def f50T : TaskSpec := { id := 0, src := 90, deps := [10, 11], prods := [20], after := [] }
+def f50P : Project := ⟨[f50T]⟩
+def f50G : G := modifyDag f50P (baseGraph f50P)
 /-- after a finished build with inputs 0, 0 and the edit of both inputs to 1 -/
-def f20W : World := ⟨[(10, 1), (11, 1), (90, 7), (20, 0)], [((0, 21), 0), ((0, 23), 0), ((0, 0), 7), ((0, 41), 0)]⟩
+def f50W : World := ⟨[(10, 1), (11, 1), (90, 7), (20, 0)], [((0, 21), 0), ((0, 23), 0), ((0, 0), 7), ((0, 41), 0)]⟩
 
-theorem f20_wf : WF f20P f20G where
-  find := by intro t ht; simp [f20P] at ht; subst ht; rfl
-  deps := by intro t ht; simp [f20P] at ht; subst ht; decide
-  prods := by intro t ht; simp [f20P] at ht; subst ht; decide
-  nodup := by intro t ht; simp [f20P] at ht; subst ht; decide
-  disj := by intro t ht; simp [f20P] at ht; subst ht; decide
-  honest := by intro t ht; simp [f20P] at ht; subst ht; intro k h; cases h
-  noPersist := by intro t ht; simp [f20P] at ht; subst ht; rfl
+theorem f50_wf : WF f50P f50G where
+  find := by intro t ht; simp [f50P] at ht; subst ht; rfl
+  deps := by intro t ht; simp [f50P] at ht; subst ht; decide
+  prods := by intro t ht; simp [f50P] at ht; subst ht; decide
+  nodup := by intro t ht; simp [f50P] at ht; subst ht; decide
+  disj := by intro t ht; simp [f50P] at ht; subst ht; decide
+  honest := by intro t ht; simp [f50P] at ht; subst ht; intro k h; cases h
+  noPersist := by intro t ht; simp [f50P] at ht; subst ht; rfl
 
-theorem f20_rc : RC f20F f20P f20G f20W.db := by
+theorem f50_rc : RC f50F f50P f50G f50W.db := by
   intro t ht
-  simp [f20P] at ht
+  simp [f50P] at ht
   subst ht
   intro _ pi hpi
-  have : pi = (20, 0) := by simpa [f20T] using hpi
+  have : pi = (20, 0) := by simpa [f50T] using hpi
   subst this
   decide
 
-theorem f20_rowsMatch :
-    RowsMatch f20P f20G (applyStep (crashAt f20F f20P {} f20W [0] 2) (.write 11 0)) f20T.id := by
+theorem f50_rowsMatch :
+    RowsMatch f50P f50G (applyStep (crashAt f50F f50P {} f50W [0] 2) (.write 11 0)) f50T.id := by
   intro v hv
-  have hn : neighbours f20G f20T.id = [21, 23, 0, 41] := by decide
+  have hn : neighbours f50G f50T.id = [21, 23, 0, 41] := by decide
   rw [hn] at hv
   simp at hv
   rcases hv with rfl | rfl | rfl | rfl
